@@ -2,6 +2,13 @@ import Pyx12Verif.Props.Doc
 import Pyx12Verif.Props.DocAccept
 import Pyx12Verif.Props.DocDelim
 import Pyx12Verif.Props.DocExample3
+import Pyx12Verif.Props.DocEnv
+import Pyx12Verif.Props.DocEnvExample
+import Pyx12Verif.Props.DocDelim2
+import Pyx12Verif.Props.DocTotal2
+import Pyx12Verif.Props.DocDelim3
+import Pyx12Verif.Props.DocDelimExample
+import Pyx12Verif.Props.DocDelimCounter
 #print axioms Pyx12Verif.Doc.doc_total
 #print axioms Pyx12Verif.Doc.doc_outcomes
 #print axioms Pyx12Verif.Doc.elemReports_codes
@@ -12,3 +19,20 @@ import Pyx12Verif.Props.DocExample3
 #print axioms Pyx12Verif.Doc.validateRead_congr
 #print axioms Pyx12Verif.Doc.doc_delimiter_independent_partial
 #print axioms Pyx12Verif.Doc.Ex.good_accepted
+#print axioms Pyx12Verif.Doc.envQuiet_of_consistent
+#print axioms Pyx12Verif.Doc.doc_accepts_generated_consistent
+#print axioms Pyx12Verif.Doc.Ex.good_accepted_consistent
+#print axioms Pyx12Verif.C12.read_encoded_reports
+#print axioms Pyx12Verif.C12.reencode_reports_invariant
+#print axioms Pyx12Verif.Doc.doc_delimiter_independent
+#print axioms Pyx12Verif.Doc.doc_delimiter_independent_views
+#print axioms Pyx12Verif.Doc.first_segment_isa
+#print axioms Pyx12Verif.Doc.doc_total_sharp
+#print axioms Pyx12Verif.Doc.doc_total_three
+#print axioms Pyx12Verif.Doc.doc_crash_sites
+#print axioms Pyx12Verif.Doc.stepSeg_isa16
+#print axioms Pyx12Verif.Doc.isa16_admits_of_charset
+#print axioms Pyx12Verif.Doc.doc_delimiter_independent_sub_partial
+#print axioms Pyx12Verif.Doc.Ex.good_same_sub
+#print axioms Pyx12Verif.Doc.Ex.good_other_sub
+#print axioms Pyx12Verif.Doc.Ex.doc_delimiter_independent_full_counterexample
